@@ -162,6 +162,9 @@ NewStream(ep) ==
   [st |-> "IDLE", cl |-> "N", hs |-> FALSE, ts |-> FALSE, hr |-> FALSE, tr |-> FALSE, by |-> "N",
    ow |-> SCur(ep.rs, 4), iw |-> WM(SCur(ep.ls, 4)),
    eclSet |-> FALSE, ecl |-> 0, acl |-> 0, meth |-> "None", auth |-> "None",
+   \* (ghosts for C16, not in the code) method of the request this endpoint sent on the stream; the content-length the
+   \* message being received declares (<<>>: none); whether that message is a response defined to have no content
+   rmeth |-> "None", scl |-> <<>>, snc |-> FALSE,
    un |-> 0]       \* (ghost, not in the code) flow-controlled octets received and not yet passed to acknowledge_received_data
 StreamOpen(s) == s.st \in {"OPEN", "HALF_CLOSED_LOCAL", "HALF_CLOSED_REMOTE"}
 
@@ -333,7 +336,8 @@ StreamSendHeaders(ep, c) ==
              ELSE LET s2 == IF c.es THEN Process(p.st, "SEND_END_STREAM").st ELSE p.st IN
                   IF s2.ts /\ ~c.es THEN CR(Mark([Dirty(Put(ep, sid, s2)) EXCEPT !.enc = EncAfter(@)], "failed_send_partial_state"), PE)
                   ELSE LET s3 == [s2 EXCEPT !.auth = IF s2.cl = "T" /\ @ = "None" THEN AuthorityOf(c.h) ELSE @,
-                                            !.meth = MethodOf(c.h)]
+                                            !.meth = MethodOf(c.h),
+                                            !.rmeth = IF s2.cl = "T" /\ ~s.hs THEN MethodOf(c.h) ELSE @]
                            \* a reserved (pushed) stream becomes open without any look at the peer's MAX_CONCURRENT_STREAMS
                            bypass == s.st = "RESERVED_LOCAL" /\ StreamOpen(s3) /\ ~WithinConcurrency(CountOpen(ep, MyParity(ep)), ep.rs)
                            e3 == IF bypass THEN Mark(Put(ep, sid, s3), "push_bypasses_stream_limit") ELSE Put(ep, sid, s3)
@@ -547,9 +551,19 @@ StreamRecvHeaders(ep, f) ==
               s3 == IF head THEN [s2 EXCEPT !.eclSet = TRUE, !.ecl = 0]
                     ELSE IF HasCL(f.h) /\ CLTok(f.h).ci THEN [s2 EXCEPT !.eclSet = TRUE, !.ecl = CLTok(f.h).civ]
                     ELSE s2
+              \* what C16 demands of this message (ghost state): its declared length; whether it has no content by definition
+              \* (response to HEAD -- the request method as first sent --, 204, 304; a 1xx block declares nothing)
+              status == IF HasName(f.h, ":status") THEN f.h[FirstIdx(f.h, ":status")].v ELSE "None"
+              s3g == IF p1.ev \in {"Req", "Resp"}
+                     THEN [s3 EXCEPT !.scl = IF HasCL(f.h) /\ CLTok(f.h).ci THEN <<CLTok(f.h).civ>> ELSE <<>>,
+                                     !.snc = p1.ev = "Resp" /\ (s.rmeth = "HEAD" \/ status \in {"204", "304"})]
+                     ELSE s3
+              \* END_STREAM on a header block ends the message: a declared length the body did not reach is accepted
+              shortEnd == f.es /\ p1.ev \in {"Req", "Resp", "Trl"} /\ ~s3g.snc /\ s3g.scl # <<>> /\ s3g.scl[1] # s3g.acl
               \* the response on a reserved (pushed) stream opens it without any look at the own MAX_CONCURRENT_STREAMS
               bypass == s.st = "RESERVED_REMOTE" /\ StreamOpen(s3) /\ ~WithinConcurrency(CountOpen(ep, 1 - MyParity(ep)), ep.ls)
-              e3 == IF bypass THEN Mark(Put(ep, sid, s3), "push_bypasses_stream_limit") ELSE Put(ep, sid, s3)
+              e3a == IF bypass THEN Mark(Put(ep, sid, s3g), "push_bypasses_stream_limit") ELSE Put(ep, sid, s3g)
+              e3 == IF shortEnd THEN Mark(e3a, "content_length_rule_differs") ELSE e3a
           IN IF clBad THEN RR(Put(ep, sid, s2), PE, <<>>)
              ELSE IF p1.ev = "Trl" /\ ~f.es THEN RR(e3, PE, <<>>)
              ELSE LET pipe == InPipeline(f.h, KindOfRecv(p1.ev), ep.cfg.ni, ep.cfg.vi, ep.cfg.enc) IN
@@ -598,9 +612,14 @@ RecvData(ep, f) ==
                   IF fcl > 0 /\ s1.iw.cur < 0 THEN RR(Put(e1, f.sid, s1), FCE, <<>>)
                   ELSE LET s2 == [s1 EXCEPT !.acl = @ + f.n]
                            badLen == s2.eclSet /\ (s2.ecl < s2.acl \/ (f.es /\ s2.ecl # s2.acl))
-                       IN IF badLen THEN RR(Put(e1, f.sid, s2), Exc("InvalidBodyLengthError", 1), <<>>)
+                           \* what C16 demands: a no-content response is refused exactly when it carries payload; otherwise the
+                           \* declared length decides
+                           strictBad == IF s2.snc THEN f.n > 0
+                                        ELSE s2.scl # <<>> /\ (s2.scl[1] < s2.acl \/ (f.es /\ s2.scl[1] # s2.acl))
+                           em == IF strictBad # badLen THEN Mark(e1, "content_length_rule_differs") ELSE e1
+                       IN IF badLen THEN RR(Put(em, f.sid, s2), Exc("InvalidBodyLengthError", 1), <<>>)
                           ELSE LET s3 == [(IF f.es THEN Process(s2, "RECV_END_STREAM").st ELSE s2) EXCEPT !.un = @ + fcl] IN
-                               RR([Put(e1, f.sid, s3) EXCEPT !.un = @ + fcl], OK,
+                               RR([Put(em, f.sid, s3) EXCEPT !.un = @ + fcl], OK,
                                   <<EvData(f.sid, f.n, IF f.n = 0 THEN "-" ELSE f.tag, fcl, IF f.es THEN 2 ELSE -1)>>
                                   \o (IF f.es THEN <<EvEnd(f.sid)>> ELSE <<>>))
 
